@@ -2,9 +2,9 @@
 # tools_seed.sh <ID> <n> [extra check IDs...] — maintenance helper (not a check).
 # Confirms a sub-agent's seeded change in its scratch worktree (existing suite passes with it, its
 # demonstration fails with it and passes without), runs the quick checks against it in /repo,
-# reverts, and files everything under /verif/seeded/<ID>-<n>/.
+# reverts, and files everything under /verif/seeded/<ID>-<n>/. Env WT=<worktree dir>, OUTN=<number to file under>.
 ID="$1"; N="$2"; shift 2; EXTRA="$@"
-W=/tmp/wt/$ID; S=$W/_seed; OUT=/verif/seeded/$ID-$N
+W=${WT:-/tmp/wt/$ID}; S=$W/_seed; ON=${OUTN:-$N}; OUT=/verif/seeded/$ID-$ON
 [ -f $S/change$N.diff ] || { echo "no $S/change$N.diff"; exit 2; }
 cd $W && git checkout -q -- . && rm -f tests/seed_demo_test.rs
 # demonstration on the clean tree
@@ -18,7 +18,7 @@ git checkout -q -- .
 echo "demo on clean tree: exit $CLEAN (want 0); demo with change: exit $MUT (want != 0); existing suite with change: exit $SUITE (want 0)"
 mkdir -p $OUT && cp $S/change$N.diff $OUT/patch.diff && cp $S/demo${N}_test.rs $OUT/ 2>/dev/null; cp $S/demo$N.* $S/expected$N.txt $S/wrong$N.txt $S/notes$N.md $OUT/ 2>/dev/null
 cd /verif && ./tools_mut.sh $OUT/patch.diff $ID $EXTRA | tee /tmp/seed_checks.log | grep "^=="
-python3 - "$ID" "$N" "$CLEAN" "$MUT" "$SUITE" "$OUT" <<'PY'
+python3 - "$ID" "$ON" "$CLEAN" "$MUT" "$SUITE" "$OUT" <<'PY'
 import json,sys,re
 ID,N,CLEAN,MUT,SUITE,OUT=sys.argv[1:7]
 res={}
@@ -26,8 +26,9 @@ for l in open('/tmp/seed_checks.log'):
     m=re.match(r'== (C\d+) exit=(\d+)\s+(\d+) violation',l)
     if m: res[m.group(1)]={'exit':int(m.group(2)),'violation_lines':int(m.group(3))}
 notes=''
-try: notes=open(OUT+'/notes%s.md'%N).read()
-except: pass
+import glob
+for f in glob.glob(OUT+'/notes*.md'):
+    notes=open(f).read()
 meta={'id':'%s-%s'%(ID,N),'breaks_property':ID,'author':'independent sub-agent (saw only the property text and a scratch worktree)',
  'needs_to_manifest':notes[:1500],
  'confirmed':{'demonstration_passes_on_clean_tree':CLEAN=='0','demonstration_fails_with_change':MUT!='0','existing_suite_passes_with_change':SUITE=='0',
